@@ -12,7 +12,7 @@
    kept), 8 marshalled size <= maximum when it can hold the headers, 9 at most
    16384 metric blocks per report block. *)
 From IV Require Import Base.Word Model.Unwrapper Model.StreamLog Model.Rfc8888Recorder
-  Spec.Rfc8888Spec Proofs.StreamLogProofs Proofs.Rfc8888Proofs Proofs.Rfc8888SpecProofs.
+  Spec.Rfc8888Spec Proofs.StreamLogProofs Proofs.Rfc8888Proofs Proofs.Rfc8888SpecProofs Proofs.StreamLogMono.
 
 (* MAIN THEOREM.  For every history of AddPacket / BuildReport / raw-budget
    builds over any number of SSRCs (any arrival and report clocks, any maximum
@@ -115,3 +115,21 @@ Theorem C08_expected_received_iff : forall st now s,
   (mbz_received (expected_mb st now s) = true <-> lfind s (o_arr st) <> None).
 Proof. exact expected_mb_received. Qed.
 Print Assumptions C08_expected_received_iff.
+
+(* "A packet once reported received is never later reported lost", stream level,
+   every kernel, every continuation of the history (arrivals incl. duplicates and
+   report builds with any non-negative budgets): the cursor never moves back, and an
+   arrival record (first copy: time and ECN unchanged) stays in the log until the
+   cursor has passed it.  By C08_block_closed_form every later block starts at or
+   above the cursor and marks k received iff k is in the log, so k is either marked
+   received again (same first-copy data) or no longer in any range. *)
+Theorem C08_cursor_monotone : forall atok ops s, sl_init s = true -> Forall wf_slop ops ->
+  sl_init (sl_run atok s ops) = true /\ sl_next s <= sl_next (sl_run atok s ops).
+Proof. exact run_mono. Qed.
+Print Assumptions C08_cursor_monotone.
+
+Theorem C08_never_unreceive : forall atok ops s k v, sl_init s = true -> Forall wf_slop ops ->
+  lfind k (sl_log s) = Some v -> sl_next (sl_run atok s ops) <= k ->
+  lfind k (sl_log (sl_run atok s ops)) = Some v.
+Proof. exact retained_until_passed. Qed.
+Print Assumptions C08_never_unreceive.
